@@ -54,7 +54,7 @@ def read_entries(root):
         if e['tag'] == 'TIMESTAMP':
             ts = e['ts']
         elif e['tag'] == 'DATA':
-            ents[e['path']] = (e['size'], e['ck'].get('SHA1'))
+            ents[e['path']] = (e['size'], e['ck'].get('SHA1'), tuple(sorted(e['ck'])))
     return ents, ts
 
 
@@ -88,6 +88,17 @@ def one_history(args):
         o1 = gem.run_cli(['create', '--timestamp', '--hashes', 'SHA1', A])
         if o1['status'] != 0:
             return [{'tz': tz, 'files': [], 'dts': 0, 'ok': False, 'meta': {'seed': seed, 'idx': idx, 'stage': 'create', 'obs': str(o1)[:300]}}]
+        # sometimes many more (never modified) files and a tight budget of file descriptors for the
+        # updates: what the incremental run skips must not cost a descriptor each
+        fdcap = rng.random() < 0.12
+        if fdcap:
+            os.mkdir(os.path.join(A, 'bulk'))
+            for k in range(48):
+                p = os.path.join(A, 'bulk', 'k%02d' % k)
+                with open(p, 'wb') as f:
+                    f.write(b'bulk-%d' % k)
+                os.utime(p, (BASE - 100, BASE - 100))
+            o1 = gem.run_cli(['update', '--hashes', 'SHA1', A])
         shutil.copytree(A, B, symlinks=True)
         pending_mid = []                 # modifications injected during the previous update
         for rnd in range(rng.randrange(1, 4)):
@@ -100,7 +111,7 @@ def one_history(args):
                 p = os.path.join(A, n)
                 if os.path.exists(p) and n in ents_inc:
                     data = open(p, 'rb').read()
-                    if ents_inc[n] != (len(data), hashlib.sha1(data).hexdigest()):
+                    if ents_inc[n][:2] != (len(data), hashlib.sha1(data).hexdigest()):
                         stale_before.add(n)
             _Clock.now = prev + DAY + rng.random() * 100
             if rng.random() < 0.15:
@@ -185,11 +196,18 @@ def one_history(args):
                 return r
             scan_start = _Clock.now
             top_before = open(os.path.join(A, 'Manifest'), 'rb').read()
+            # the requested hash set may change between rounds (SHA1 always among them)
+            hs = rng.choice(['SHA1', 'SHA1', 'SHA1', 'SHA1 SHA256', 'MD5 SHA1'])
+            import resource
+            lim = resource.getrlimit(resource.RLIMIT_NOFILE)
+            if fdcap:
+                resource.setrlimit(resource.RLIMIT_NOFILE, (len(os.listdir('/proc/self/fd')) + 24, lim[1]))
             gem.gemato.recursiveloader.update_entry_for_path = wrapper
             try:
-                oa = gem.run_cli(['update', '--incremental', '--hashes', 'SHA1', A])
+                oa = gem.run_cli(['update', '--incremental', '--hashes', hs, A])
             finally:
                 gem.gemato.recursiveloader.update_entry_for_path = old_uefp
+                resource.setrlimit(resource.RLIMIT_NOFILE, lim)
             # the full update on the other copy sees the tree as it was when the incremental one
             # hashed each file; the injected modification happened "after hashing" there as well:
             # so hash B with the pre-injection content: undo, update, redo
@@ -202,7 +220,12 @@ def one_history(args):
                     orig = bytes([cur[0] ^ 2]) + cur[1:]
                     open(p, 'wb').write(orig)
                     undo.append((p, cur, st.st_mtime_ns))
-            ob = gem.run_cli(['update', '--hashes', 'SHA1', B])
+            if fdcap:
+                resource.setrlimit(resource.RLIMIT_NOFILE, (len(os.listdir('/proc/self/fd')) + 24, lim[1]))
+            try:
+                ob = gem.run_cli(['update', '--hashes', hs, B])
+            finally:
+                resource.setrlimit(resource.RLIMIT_NOFILE, lim)
             for p, cur, ns in undo:
                 open(p, 'wb').write(cur)
                 os.utime(p, ns=(ns, ns))
@@ -221,12 +244,12 @@ def one_history(args):
                     p = os.path.join(A, n)
                     if os.path.exists(p) and n not in pending_mid:
                         data = open(p, 'rb').read()
-                        fl['true'] = ea.get(n) == (len(data), hashlib.sha1(data).hexdigest())
+                        fl['true'] = (ea.get(n) or ())[:2] == (len(data), hashlib.sha1(data).hexdigest())
                     elif not os.path.exists(p):
                         fl['true'] = n not in ea
             recs.append({'tz': tz, 'files': [flist[n] for n in names], 'dts': dts, 'ok': ok,
                          'meta': {'seed': seed, 'idx': idx, 'round': rnd, 'ops': {k: list(v) for k, v in ops.items()},
-                                  'mid': list(pending_mid), 'tz': tz,
+                                  'mid': list(pending_mid), 'tz': tz, 'hashes': hs, 'fdcap': fdcap,
                                   'err': (oa['errors'] + ob['errors'])[:3] if not ok else []}})
             if not ok:
                 break
